@@ -3,7 +3,7 @@
    hcase: one hostile byte string given to the real edf.Decode in a child process.
    fcase: one hostile byte stream written to a link of a real proto connection in a child process. *)
 From Ergo Require Import Common.Base Common.Bytes Common.Codec Edf.Model Edf.Cases
-                         Hostile.Alloc Hostile.Frames.
+                         Hostile.Alloc Hostile.Frames Hostile.HsMsg.
 Local Open Scope N_scope.
 
 Record hcase := mk_hcase {
@@ -250,3 +250,21 @@ Definition spec_frames (c : fcase) : bool := negb (f_obs c =? 3).
 
 (* the model says the same (the theorem C16_frames_safe evaluated on the case) *)
 Definition premise_frames (c : fcase) : bool := negb (is_crash (f_trace c)) && (1 <=? t_frames (f_trace c)).
+
+(* ---- handshake messages of a peer that knows the cookie (go/harness/cmd/hostile hsnode) ------------- *)
+Record ncase := mk_ncase {
+  n_msg : hsmsg;
+  n_obs : Z            (* 0 connection established; 1 refused; 2 the node died / the caller of GetNode panicked; 3 no answer *)
+}.
+
+Definition hsout_code (o : hsout) : Z :=
+  match o with HConnected => 0 | HRejected => 1 | HCrash _ => 2 end.
+
+(* the model of the guarded code predicts what the real node did *)
+Definition corr_hsnode (c : ncase) : bool := Z.eqb (hsout_code (hs_outcome true (n_msg c))) (n_obs c).
+
+(* the property: whatever such a peer declares, the node survives and answers *)
+Definition spec_hsnode (c : ncase) : bool := Z.ltb (n_obs c) 2.
+
+(* invalid messages (the theorem C16_hs_invalid_rejected speaks about them) *)
+Definition premise_hsnode (c : ncase) : bool := negb (hs_msg_ok (n_msg c)).
